@@ -64,6 +64,12 @@ TYPES += [
     ("leeds", 4, "leeds_photon", "PHOTON", ["CO2"], ["CO2"], ""),
     ("leeds", 12, "leeds_photon", "PHOTON", ["GC"], ["GC"], ""),
     ("leeds", 12, "leeds_photon", "PHOTON", ["GCO2"], ["GCO2"], ""),
+    # ... and so must the ions of the shielded molecules
+    ("leeds", 4, "leeds_photon", "PHOTON", ["CO+"], ["CO+"], ""),
+    ("leeds", 4, "leeds_photon", "PHOTON", ["H2+"], ["H2+"], ""),
+    ("leeds", 4, "leeds_photon", "PHOTON", ["N2+"], ["N2+"], ""),
+    ("uclchem", "PHOTON", "ucl_photon", "PHOTON", ["CO+"], ["CO+"], ""),
+    ("uclchem", "PHOTON", "ucl_photon", "PHOTON", ["H2+"], ["H2+"], ""),
 ]
 for code, law, marker in [(100, "twobody", None), (101, "cosmicray", "CR"), (102, "photon", "PHOTON"), (110, "ionpol1", None), (111, "ionpol2", None), (120, "crphot", "CRPHOT"), (1000, "zero", None)]:
     TYPES.append(("naunet", code, law, marker, ["H"] if marker else ["H", "H2"], ["H2", "H"], ""))
